@@ -63,7 +63,9 @@ def scenarios():
                             dict(op="proc_open", base="root", cbase=0x5001FFFF, path="sys/fs/protected_symlinks", oflags=RD | O["NOFOLLOW"], **A),
                             dict(op="proc_open", base="self", cbase=0x091D5E1F, path="nonexist", oflags=RD | O["NOFOLLOW"], **A),
                             dict(op="proc_open", base="self", cbase=0x091D5E1F, path="root/etc", oflags=RD | O["NOFOLLOW"], **A),
-                            dict(op="proc_readlink", base="self", cbase=0x091D5E1F, path="status", **A)])
+                            dict(op="proc_readlink", base="self", cbase=0x091D5E1F, path="status", **A)]
+                           # the Rust API lets a caller pass O_NOFOLLOW to open_follow: the trailing link must then not be followed
+                           + ([dict(op="proc_open_follow", base="self", path="exe", oflags=O["PATH"] | O["NOFOLLOW"], **A), dict(op="proc_open_follow", base="self", path="cwd", oflags=RD | O["NOFOLLOW"], **A)] if api == "rust" else []))
     # C ABI given descriptor numbers that are not descriptors (C17 argument classes; for C05 the point is
     # that no system call may be issued against AT_FDCWD / the current directory on their behalf)
     for bad in (-100, -1, -9, -2147483648):
